@@ -87,7 +87,9 @@ REG = {
          'Python source on every run (translator/merge.py -> Generated/Merge.lean): length law, one logits row per character, '
          'prefix/suffix preservation, zero-overlap and empty parts concatenated unchanged, for any number of parts of any '
          'length; window splitting covers the line with max_line_width//4 overlap. Loop structure and overlap search tied '
-         'by exact correspondence with the real functions.',
+         'by exact correspondence with the real functions. The regrouping of the window results per line in process_lines is modelled (regroup_flatten, regroup_lengths, line_result: line k gets exactly '
+         'its own windows, in order) with exact correspondence per network call; the merged text is independent of the logits (text_independent_of_logits), '
+         'compared on the real process_lines(no_logits=True).',
     note='Trusted: Lean kernel + 3 standard axioms; the ast translator (tiny expression subset; validated by the exact '
          'correspondence of the generated model with the real merge on every run); float comparison of cer quotients of small '
          'integers orders like exact rationals.',
